@@ -176,7 +176,12 @@ func (m *svcModel) candidates() [][]services.State {
 	return out
 }
 
-func (m *svcModel) cur() services.State { return m.observed[len(m.observed)-1] }
+func (m *svcModel) cur() services.State {
+	if len(m.observed) == 0 {
+		return services.New
+	}
+	return m.observed[len(m.observed)-1]
+}
 
 // possibly / definitely: has the service been in st at or before the currently polled state,
 // in some / in every life cycle that is still consistent.
